@@ -9,6 +9,7 @@ import json, os, shutil, subprocess, sys
 from concurrent.futures import ThreadPoolExecutor
 
 VERIF = os.path.dirname(os.path.dirname(os.path.abspath(__file__)))
+MERGE = False
 
 
 def sh(cmd, cwd=None, env=None, timeout=3600):
@@ -43,9 +44,18 @@ def one(d, props):
         sh(["git", "-C", "/repo", "worktree", "remove", "--force", wt])
         shutil.rmtree(wt, ignore_errors=True)
         shutil.rmtree(vf, ignore_errors=True)
-    caught = sorted(p for p, r in res.items() if r["exit"] != 0)
-    json.dump(dict(caught_by=caught, results=res), open(os.path.join(d, "detect.json"), "w"), indent=1)
-    return sid, caught
+    dj = os.path.join(d, "detect.json")
+    if MERGE and os.path.exists(dj):  # keep the other checks' earlier results, stamp the refreshed ones
+        old = json.load(open(dj)).get("results", {})
+        for p, r in res.items():
+            r["machinery"] = "final"
+        for p, r in old.items():
+            if p not in res:
+                r.setdefault("machinery", "earlier run")
+                res[p] = r
+    caught = sorted(p for p, r in res.items() if r.get("exit") not in (0, None))
+    json.dump(dict(caught_by=caught, results=res), open(dj, "w"), indent=1)
+    return sid, sorted(p for p in props if res.get(p, {}).get("exit") not in (0, None))
 
 
 def main():
@@ -54,13 +64,20 @@ def main():
     if args and args[0] == "-j":
         j = int(args[1])
         args = args[2:]
+    global MERGE
     props = [c["property_id"] for c in json.load(open(os.path.join(VERIF, "MANIFEST.json")))["checks"]]
+    if "--merge" in args:
+        MERGE = True
+        args.remove("--merge")
+    target = "--target" in args
+    if target:
+        args.remove("--target")
     if "--props" in args:
         i = args.index("--props")
         props = args[i + 1].split(",")
         args = args[:i] + args[i + 2:]
     with ThreadPoolExecutor(max_workers=j) as ex:
-        for sid, caught in ex.map(lambda d: one(d, props), args):
+        for sid, caught in ex.map(lambda d: one(d, [os.path.basename(os.path.abspath(d))[:3]] if target else props), args):
             print(sid, "caught by:", caught, flush=True)
 
 
